@@ -911,6 +911,29 @@ func handBuiltProtoShard() mc.Shard {
 									fails = append(fails, mc.Fail{Clause: "C09.mixed-bins-add-up", Detail: fmt.Sprintf("message %v rebuilt with %s stores\n  got:  %s\n  want: %s", msg, t, got, want)})
 								}
 								distinct[want] = struct{}{}
+								// extremes and emptiness come from the non-empty bins only (a zero
+								// count at the edge of a contiguous run is not a bin)
+								if err == nil {
+									ref := &model.MapStore{M: exp}
+									lo, ok := ref.Min()
+									hi, _ := ref.Max()
+									for side, sd := range map[string]store.Store{"positive": dec.GetPositiveValueStore(), "negative": dec.GetNegativeValueStore()} {
+										mn, e1 := sd.MinIndex()
+										mx, e2 := sd.MaxIndex()
+										if sd.IsEmpty() != !ok || (ok && (e1 != nil || e2 != nil || mn != lo || mx != hi)) || (!ok && (e1 == nil || e2 == nil)) {
+											fails = append(fails, mc.Fail{Clause: "C09.mixed-bins-add-up", Detail: fmt.Sprintf("message %v rebuilt with %s stores: the %s store reports empty=%v min=%d (%v) max=%d (%v); its non-empty bins are %s", msg, t, side, sd.IsEmpty(), mn, e1, mx, e2, ModelContent(ref))})
+										} else if ok && (sd.KeyAtRank(-1) != lo || sd.KeyAtRank(math.Inf(1)) != hi) {
+											fails = append(fails, mc.Fail{Clause: "C09.mixed-bins-add-up", Detail: fmt.Sprintf("message %v rebuilt with %s stores: KeyAtRank(-1)=%d KeyAtRank(+Inf)=%d on the %s store whose non-empty bins are %s", msg, t, sd.KeyAtRank(-1), sd.KeyAtRank(math.Inf(1)), side, ModelContent(ref))})
+										}
+									}
+									if ok {
+										gmn, _ := dec.GetMinValue()
+										gmx, _ := dec.GetMaxValue()
+										if w := m.Value(hi); gmn != -w || gmx != w {
+											fails = append(fails, mc.Fail{Clause: "C09.mixed-bins-add-up", Detail: fmt.Sprintf("message %v rebuilt with %s stores: min=%v max=%v, the extreme bins hold -/+%v", msg, t, gmn, gmx, w)})
+										}
+									}
+								}
 								// the generic and the store-specific merge entry points agree
 								s2 := t.New()
 								store.MergeWithProto(s2, st)
